@@ -346,6 +346,30 @@ def unit(which):
 BUE = "broadcast use fq_abs, fr_abs, to_affine_idem, to_affine_wf, ark_mul_is_smul, arepr_of_aff, repr_of_p4, validity_axioms, le32_axioms;"
 
 ELEMENT_LEMMAS = r"""
+// ---- vartime_multiscalar_mul: generic iterators and Borrow (A-STD).  `into_seq(c)` is the sequence IntoIterator::into_iter(c)
+// yields; Iterator::next pops the head of the remaining sequence (R32 desugars `a.zip(b).fold(init, f)` to the loop over both)
+pub trait Borrow<B> { spec fn borrow_spec(&self) -> B; fn borrow(&self) -> (r: &B) ensures *r == self.borrow_spec(); }
+impl Borrow<Fr> for Fr { open spec fn borrow_spec(&self) -> Fr { *self } fn borrow(&self) -> (r: &Fr) { self } }
+impl Borrow<Element> for Element { open spec fn borrow_spec(&self) -> Element { *self } fn borrow(&self) -> (r: &Element) { self } }
+pub uninterp spec fn into_seq<I: IntoIterator>(it: I) -> Seq<I::Item>;
+#[verifier::external_body]
+pub fn std_into_iter<I: IntoIterator>(it: I) -> (r: I::IntoIter)
+    ensures iter_seq(r) == into_seq(it)
+{ it.into_iter() }
+#[verifier::external_body]
+pub fn std_next<I: Iterator>(it: &mut I) -> (r: Option<I::Item>)
+    ensures match r { Some(v) => iter_seq(*old(it)).len() > 0 && v == iter_seq(*old(it))[0] && iter_seq(*final(it)) == iter_seq(*old(it)).drop_first(),
+                      None => iter_seq(*old(it)).len() == 0 && iter_seq(*final(it)).len() == 0 }
+{ it.next() }
+// the reference products [c_i] P_i of the pairs the zip yields (as many as the shorter side has)
+pub open spec fn msm_terms<A: Borrow<Fr>, B: Borrow<Element>>(ss: Seq<A>, ps: Seq<B>) -> Seq<P4> {
+    Seq::new(if ss.len() < ps.len() { ss.len() } else { ps.len() }, |i: int| ark_mul(ss[i].borrow_spec().val(), repr(ps[i].borrow_spec().inner)))
+}
+// the result is the left-to-right sum, from the identity, of terms that are -- in canonical affine form -- the reference products
+pub open spec fn msm_post<A: Borrow<Fr>, B: Borrow<Element>>(ss: Seq<A>, ps: Seq<B>, r: P4) -> bool {
+    exists|ts: Seq<P4>, pa: Seq<P4>| ts.len() == msm_terms(ss, ps).len() && #[trigger] sum_trace_e(ts, pa, r)
+        && forall|i: int| 0 <= i < ts.len() ==> to_affine(#[trigger] ts[i]) == to_affine(msm_terms(ss, ps)[i])
+}
 // rand.rs: the RNG and the arkworks curve-point sampler are arbitrary sources (A-ARK-2 / A-STD)
 pub trait Rng {}
 pub struct Standard;
@@ -420,10 +444,41 @@ def element_unit():
     ops_stub = [dataclasses.replace(it, mode="stub", proved_in="ark_ops",
                                     fns=[dataclasses.replace(f, preamble="") for f in it.fns])
                 for it in op_items(OPS_P) + op_items(OPS_A)
-                if _re.search(r'\bAdd<', it.header) and "for Element" in it.header]
+                if (_re.search(r'\b(Add|Sub)<', it.header) and "for Element" in it.header)
+                or it.header == "impl<'a, 'b> Mul<&'b Element> for &'a Fr"]
     items += ops_stub
     P_ = ELEM_P
     items.append(Item(P_, "impl Element", [Fn("IDENTITY", as_const=True, ensures="repr(Element::IDENTITY.inner) == id4()", props=("C06",))]))
+    INV_ = """0 <= k_ <= a0_.len(), k_ <= b0_.len(),
+                pa_.len() == k_ + 1, ts_.len() == k_, pa_[0] == id4(), pa_[k_] == repr(acc_.inner),
+                forall|i: int| 0 <= i < k_ ==> to_affine(#[trigger] pa_[i + 1]) == to_affine(te_add(pa_[i], ts_[i])),
+                forall|i: int| 0 <= i < k_ ==> to_affine(#[trigger] ts_[i]) == to_affine(msm_terms(a0_, b0_)[i]),"""
+    items.append(Item(P_, "impl Element", [Fn(
+        "vartime_multiscalar_mul", props=("C05",),
+        preamble=BUE + " let ghost mut k_: int = 0; let ghost mut pa_: Seq<P4> = seq![id4()]; let ghost mut ts_: Seq<P4> = Seq::empty();",
+        subst=[("R6", r'\b(\w+)\.into_iter\(\)', r'std_into_iter(\1)')],
+        ensures="msm_post(into_seq(scalars), into_seq(points), repr(r.inner))",
+        loops={0: f"""invariant_except_break iter_seq(a_) == a0_.skip(k_), iter_seq(b_) == b0_.skip(k_), {INV_}
+            ensures k_ == a0_.len() || k_ == b0_.len(), sum_trace_e(ts_, pa_, repr(acc_.inner)), {INV_}
+            decreases iter_seq(a_).len()"""},
+        loops_begin={0: "let ghost pa0_ = pa_; let ghost ts0_ = ts_;"},
+        loops_end={0: """let want_ = ark_mul(x_.borrow_spec().val(), repr(y_.borrow_spec().inner));
+                assert(exists|t: P4| #[trigger] te_add(repr(acc0_.inner), t) == te_add(repr(acc0_.inner), t) && to_affine(t) == to_affine(want_)
+                       && to_affine(repr(acc_.inner)) == to_affine(te_add(repr(acc0_.inner), t)));
+                let tmv_ = choose|t: P4| #[trigger] te_add(repr(acc0_.inner), t) == te_add(repr(acc0_.inner), t) && to_affine(t) == to_affine(want_)
+                       && to_affine(repr(acc_.inner)) == to_affine(te_add(repr(acc0_.inner), t));
+                assert(x_ == a0_[k_]); assert(y_ == b0_[k_]);
+                assert(a0_.skip(k_).drop_first() =~= a0_.skip(k_ + 1));
+                assert(b0_.skip(k_).drop_first() =~= b0_.skip(k_ + 1));
+                ts_ = ts_.push(tmv_);
+                pa_ = pa_.push(repr(acc_.inner));
+                k_ = k_ + 1;
+                assert forall|i: int| 0 <= i < k_ implies to_affine(#[trigger] pa_[i + 1]) == to_affine(te_add(pa_[i], ts_[i])) by {
+                    if i < k_ - 1 { assert(pa_[i + 1] == pa0_[i + 1] && pa_[i] == pa0_[i] && ts_[i] == ts0_[i]); }
+                }
+                assert forall|i: int| 0 <= i < k_ implies to_affine(#[trigger] ts_[i]) == to_affine(msm_terms(a0_, b0_)[i]) by {
+                    if i < k_ - 1 { assert(ts_[i] == ts0_[i]); }
+                }"""})]))
     items.append(Item(P_, "impl Hash for Element", [Fn("hash", props=("C08",), preamble=BUE,
                       ensures="final(state).written() == old(state).written() + hash_prefix32() + le32(spec_encode(repr(self.inner)))@")]))
     items.append(Item(P_, "impl Default for Element", [Fn("default", ensures="repr(r.inner) == id4()", props=("C06", "C08"), preamble=BUE)]))
@@ -512,6 +567,7 @@ def element_unit():
                            ("R7", r'\bcore::hash::Hasher\b', 'Hasher')])
     u.raw = [("src/error.rs", "enum", "EncodingError"), (ENC, "struct", "Encoding"),
              ("src/ark_curve/element/projective.rs", "struct", "Element"), ("src/ark_curve/element/affine.rs", "struct", "AffinePoint")]
+    u.ufcs_fns = ("vartime_multiscalar_mul",)
     return u
 
 
